@@ -15,6 +15,7 @@ from vt.ref import c608_table as T
 ID = "C08"
 RULE = ("SCC files generated from the pop-on / roll-up / paint-on grammars of vt/gen/scc.py (1-3 mode segments, <= 40 captions, "
         "rows 1-15, PAC indent/colour + tab offsets, standard/special/extended characters, mid-row codes, BS, optional ENM/EDM, "
+        "ENM/EDM omitted between pop-on captions on different rows in ~45% of the streams (memory swap: the caption of two flips ago returns), "
         "all-doubled or all-single control codes, channel-2 groups, null padding, three parity renderings, DF/NDF start "
         "times incl. minute/hour crossings, text_align in auto/left/center/right) plus the three bundled .scc files; "
         "non-trivial = the reader produced >= 2 paragraphs; distinct = distinct file texts")
@@ -26,7 +27,7 @@ ASSUMPTIONS = [
   "screens during the transmission of a roll-up / paint-on line may run ahead of the decoder up to the end of that line (never behind by more than 2 frames, never ahead of the line's time code)",
   "a roll-up row's paragraph must begin in the window of its CR (RUx when there is none), as DESIGN.md clause 3",
   "streams on which 'the redundant copy must be the very next word' and 'null padding / other-channel words do not break a doubled pair' decode differently are skipped (counted as abstain:dup-ambiguous)",
-  "not generated: tab offsets in the middle of a row, rows past column 32, BS/extended characters in column 32, text split across SCC lines inside a row, overlapping SCC lines, mode changes without an intervening EDM, ENM omitted on a non-empty non-displayed memory, T1/T2 text mode, field-2 codes, two identical control pairs separated only by padding or channel-2 data",
+  "not generated: tab offsets in the middle of a row, rows past column 32, BS/extended characters in column 32, text split across SCC lines inside a row, overlapping SCC lines, mode changes without an intervening EDM, pop-on rows loaded over a row still held by the non-displayed memory (without ENM the new rows always address free rows), T1/T2 text mode, field-2 codes, two identical control pairs separated only by padding or channel-2 data",
   "a roll-up row without PAC (CR then text) is generated only when the pen already is white/plain (47 CFR 15.119(h)(1) resets attributes at the end of a row; the reader keeps them - not judged)",
   "bundled files: screens containing a row that received more than 32 glyphs are not compared; files whose lines overlap (next time code earlier than the end of the previous line) are skipped",
   "a row erased by PAC + DER may vanish from the PAC's window on (the pair is taken as the trigger)",
@@ -37,7 +38,7 @@ ASSUMPTIONS = [
 REQUIRED = ["streams", "mode:pop", "mode:roll", "mode:paint", "tc:df", "tc:ndf", "codes:doubled", "codes:single",
             "clause1:settled-screens", "clause2:popon-begin", "clause2:popon-end", "clause3:rollup-begin",
             "clause3:rollup-depth", "clause4:painton-frames", "clause5:styled-chars", "clause2:exact-times",
-            "clause6:ch2-to-padding", "clause6:parity", "bundled"]
+            "clause6:ch2-to-padding", "clause6:parity", "bundled", "class:popon-no-enm-swap", "clause2:popon-returning-row"]
 SHARD_TIMEOUT = {"quick": 600, "thorough": 3600}
 
 BUNDLED_DIR = os.path.join(core.REPO, "src/test/resources/scc")
@@ -292,6 +293,11 @@ def check_stream(ctx, text, text_align, meta=None, tier="quick"):
   modes = {r["mode"] for r in acting if r["mode"]}
   for m in modes:
     ctx.count("mode:" + m)
+  n_swap = sum(1 for r in acting if r.get("swap_carry"))
+  if n_swap:
+    # flips that bring a caption displayed earlier back on screen (no ENM since): exercises the EOC memory swap
+    ctx.count("class:popon-no-enm-swap")
+    ctx.count("class:popon-no-enm-swap-flips", n_swap)
   if meta is not None:
     selfcheck(case, meta)
 
@@ -576,22 +582,31 @@ def check_row_lifetimes(ctx, case, paras, timed, viol):
     if t is not None:
       roll_final[R.cells_text(t[1])] = rr
 
+  def is_eoc(rec):
+    return rec["cls"] == "control" and rec["name"] == "EOC"
+
   for t, ks in appearances.items():
-    if len(ks) != 1:
+    # a pop-on row may be displayed several times: without ENM it stays in the non-displayed memory and returns
+    # with a later flip (memory swap); every appearance is then checked against one run of the document, in order
+    multi_pop = len(ks) > 1 and all(is_eoc(ev_word[k]) for k in ks)
+    if len(ks) != 1 and not multi_pop:
       ctx.count("abstain:row-text-not-unique")
       continue
-    k = ks[0]
-    m = vanish_event(t, k)
-    trigger = ev_word[k]
-    vanish = ev_word[m] if m is not None else None
-    # only rows in their final form: they vanish through an erase / flip / roll, or never
-    if vanish is not None and not (vanish["cls"] == "control" and vanish["name"] in ("EDM", "EOC", "CR", "RU2", "RU3", "RU4", "DER")):
-      continue
-    cells = cells_of(t, k)
+    cells = cells_of(t, ks[0])
     if cells[-1][4] == "o":
       ctx.count("abstain:row-longer-than-32-columns")
       continue
-    if trigger["cls"] == "control" and trigger["name"] == "EOC":
+    finals = []
+    for k in ks:
+      m = vanish_event(t, k)
+      vanish = ev_word[m] if m is not None else None
+      # only rows in their final form: they vanish through an erase / flip / roll, or never
+      if vanish is None or (vanish["cls"] == "control" and vanish["name"] in ("EDM", "EOC", "CR", "RU2", "RU3", "RU4", "DER")):
+        finals.append((k, vanish))
+    if len(finals) != len(ks):
+      continue
+    trigger = ev_word[ks[0]]
+    if is_eoc(trigger):
       mode = "pop"
     elif t in roll_final:
       mode = "roll"
@@ -604,39 +619,44 @@ def check_row_lifetimes(ctx, case, paras, timed, viol):
       # never displayed with this text: the settled-screen clause reports it when a settled frame exists
       ctx.count("note:row-never-in-document")
       continue
-    if len(runs) > 1:
-      viol("row-reappears:" + mode, "row %r is displayed during %r, the decoder displays it once" % (t, runs))
+    if len(runs) != len(ks):
+      viol(("row-reappears:" if len(runs) > len(ks) else "row-does-not-return:") + mode,
+           "row %r is displayed during %r, the decoder displays it %d time(s) (flips at word frames %r)"
+           % (t, runs, len(ks), [ev_word[k]["w"] for k in ks]))
       continue
-    b, e = runs[0]
-    if mode == "pop":
-      ctx.count("clause2:popon-begin")
-      timed("popon-begin-outside-window", "pop-on row %r appears" % t, b, trigger["w"])
-    elif mode == "roll":
-      rr = roll_final[t]
-      if rr["trigger"] is not None:
-        ctx.count("clause3:rollup-begin")
-        timed("rollup-begin-outside-window", "roll-up row %r appears" % t, b, rr["trigger"]["w"])
-    else:
-      # paint-on: complete no later than 2 frames after its last character, not before its line's time code
-      ctx.count("clause4:painton-row-complete")
-      t_line = case.line_T[trigger["line"]]
-      if not (isinstance(b, int) and t_line <= b <= trigger["w"] + 2):
-        viol("painton-row-time", "paint-on row %r complete at frame %s, expected within [%d, %d]" % (t, b, t_line, trigger["w"] + 2))
-    if vanish is None:
-      if e is not None:
-        viol("row-ends-but-never-erased:" + mode, "row %r ends at frame %s but the decoder keeps it on display" % (t, e))
-    else:
-      ctx.count("clause2:popon-end" if mode == "pop" else "clause2:%s-end" % mode)
-      if e is None:
-        viol("row-never-ends:" + mode, "row %r never ends, the decoder removes it at word frame %d" % (t, vanish["w"]))
+    if multi_pop:
+      ctx.count("clause2:popon-returning-row")
+    for (k, vanish), (b, e) in zip(finals, runs):
+      trigger = ev_word[k]
+      if mode == "pop":
+        ctx.count("clause2:popon-begin")
+        timed("popon-begin-outside-window", "pop-on row %r appears" % t, b, trigger["w"])
+      elif mode == "roll":
+        rr = roll_final[t]
+        if rr["trigger"] is not None:
+          ctx.count("clause3:rollup-begin")
+          timed("rollup-begin-outside-window", "roll-up row %r appears" % t, b, rr["trigger"]["w"])
       else:
-        lo_off = 0
-        if vanish["name"] == "DER":
-          # PAC + DER on an occupied row: the pair is the trigger (the reader clears the row on the PAC)
-          prev = [r for r in dec.words if r["w"] < vanish["w"] and r["ch1"] and not r["suppressed"]][-1:]
-          if prev and prev[0]["cls"] == "pac" and prev[0]["line"] == vanish["line"]:
-            lo_off = prev[0]["w"] - vanish["w"]
-        timed(mode + "-end-outside-window", "%s row %r vanishes" % (mode, t), e, vanish["w"], lo_off)
+        # paint-on: complete no later than 2 frames after its last character, not before its line's time code
+        ctx.count("clause4:painton-row-complete")
+        t_line = case.line_T[trigger["line"]]
+        if not (isinstance(b, int) and t_line <= b <= trigger["w"] + 2):
+          viol("painton-row-time", "paint-on row %r complete at frame %s, expected within [%d, %d]" % (t, b, t_line, trigger["w"] + 2))
+      if vanish is None:
+        if e is not None:
+          viol("row-ends-but-never-erased:" + mode, "row %r ends at frame %s but the decoder keeps it on display" % (t, e))
+      else:
+        ctx.count("clause2:popon-end" if mode == "pop" else "clause2:%s-end" % mode)
+        if e is None:
+          viol("row-never-ends:" + mode, "row %r never ends, the decoder removes it at word frame %d" % (t, vanish["w"]))
+        else:
+          lo_off = 0
+          if vanish["name"] == "DER":
+            # PAC + DER on an occupied row: the pair is the trigger (the reader clears the row on the PAC)
+            prev = [r for r in dec.words if r["w"] < vanish["w"] and r["ch1"] and not r["suppressed"]][-1:]
+            if prev and prev[0]["cls"] == "pac" and prev[0]["line"] == vanish["line"]:
+              lo_off = prev[0]["w"] - vanish["w"]
+          timed(mode + "-end-outside-window", "%s row %r vanishes" % (mode, t), e, vanish["w"], lo_off)
 
 
 def check_transmission_frames(ctx, case, paras, viol):
